@@ -111,7 +111,7 @@ fn bare_safe(key: &str) -> bool {
 			// Numerical words taken from https://yaml.org/type/float.html
 			".nan", "-.inf", "+.inf", ".inf", "null",
 			// Invalid keys that contain no invalid characters
-			"-", "---", "",
+			"-", "---", "...", "",
 		];
 		RESERVED.iter().any(|k| key.eq_ignore_ascii_case(k))
 	}
